@@ -6,6 +6,7 @@
     SingleLogoutService location registered for the issuer. *)
 From Saml Require Import Base.Bytes Idp.FactTypes Gen.Facts Gen.Pure Core.Acs Idp.Sso Proofs.SsoProofs Proofs.SsoAccept
   Idp.Callback Proofs.CallbackProofs Idp.Logout Proofs.LogoutProofs Proofs.EndToEnd.
+From Saml Require Proofs.EndToEndDoc.
 
 Section C02.
 Variable e_form : option form.
@@ -123,6 +124,17 @@ Theorem C02_end_to_end : forall k rec form_id lookup_req app_entity userinfo cer
      (c_binding k = c_RedirectBinding /\ exists det, d = CRedirect (c_acs k) (c_relay k) det)).
 Proof. exact callback_answers_stored. Qed.
 
+(** ... down to the DOCUMENT: whatever the callback answers for a record the SSO handler handed over, the document the programs
+    translated from response.go build for that answer -- Success with the user's attributes, or a failure status -- carries that
+    request's ID (on the Response and, for Success, in the subject confirmation) and has that registered consumer URL as
+    Destination (and Recipient); composition of the handler models with the builder programs, for all inputs *)
+Theorem C02_end_to_end_document : forall k rec form_id lookup_req app_entity userinfo cert_ok sign_ok issuer id1 id2 rest issue until,
+  stores k rec -> c_acs k <> [] -> binding_supported (c_binding k) = true ->
+  form_id <> [] -> lookup_req form_id = Some rec -> app_entity (sr_app rec) <> None ->
+  exists d m, cs_out (callback true form_id lookup_req app_entity userinfo cert_ok sign_ok callback_seq loginResponse_seq) = [CSaml d m] /\
+    EndToEndDoc.reply_document_ok k issuer m id1 id2 rest issue until.
+Proof. exact EndToEndDoc.end_to_end_document. Qed.
+
 Print Assumptions C02_sso_reply_target.
 Print Assumptions C02_target_registered.
 Print Assumptions C02_persisted_pair.
@@ -131,3 +143,4 @@ Print Assumptions C02_callback_target.
 Print Assumptions C02_logout_target.
 Print Assumptions C02_accepted_record.
 Print Assumptions C02_end_to_end.
+Print Assumptions C02_end_to_end_document.
